@@ -643,3 +643,109 @@ func (p *Program) checkEffectsC18(cfg *effectCfg) []effectObl {
 	sort.Slice(obls, func(i, j int) bool { return obls[i].Name < obls[j].Name })
 	return obls
 }
+
+// ioFrameCfg: the frame half of root confinement (C01). The SMT obligations show that every path handed to an
+// afero.Fs method is confined; they say nothing about code that reaches the host file system without going through
+// an afero.Fs value. This scan generates one obligation per function of the listed packages: the function refers to
+// no function of a package that opens, stats, lists or changes host files by name (os, io/ioutil, os/exec, syscall,
+// golang.org/x/sys, github.com/djherbis/times, the by-name walkers of path/filepath) and constructs no unconfined
+// afero file system, except for the allow-listed entries (which take no path).
+type ioFrameCfg struct {
+	Packages []string `json:"packages"`
+	Allowed  []string `json:"allowed"` // "pkgpath.Name" of functions that may be used
+}
+
+func (p *Program) checkIOFrame(cfg *ioFrameCfg) []effectObl {
+	var obls []effectObl
+	allowed := map[string]bool{}
+	for _, a := range cfg.Allowed {
+		allowed[a] = true
+	}
+	inPkgs := map[string]bool{}
+	for _, n := range cfg.Packages {
+		inPkgs[n] = true
+	}
+	hostIO := func(obj types.Object) string {
+		f, ok := obj.(*types.Func)
+		if !ok || f.Pkg() == nil {
+			return ""
+		}
+		path := f.Pkg().Path()
+		full := path + "." + f.Name()
+		if sig, ok := f.Type().(*types.Signature); ok && sig.Recv() != nil {
+			// methods: only those of the OS file system objects of afero reach the host by name
+			rt := sig.Recv().Type().String()
+			if strings.Contains(rt, "afero.OsFs") {
+				return "afero.OsFs." + f.Name()
+			}
+			return ""
+		}
+		if allowed[full] {
+			return ""
+		}
+		switch {
+		case path == "os" || path == "io/ioutil" || path == "os/exec" || path == "syscall" || path == "plugin" ||
+			strings.HasPrefix(path, "golang.org/x/sys/") || path == "github.com/djherbis/times":
+			return full
+		case path == "path/filepath":
+			switch f.Name() {
+			case "Walk", "WalkDir", "Glob", "EvalSymlinks", "Abs":
+				return full
+			}
+		case path == "github.com/spf13/afero":
+			switch f.Name() {
+			case "NewOsFs", "NewBasePathFs", "NewMemMapFs", "NewCopyOnWriteFs", "NewCacheOnReadFs", "NewReadOnlyFs", "NewRegexpFs":
+				return full
+			}
+		}
+		return ""
+	}
+	var paths []string
+	for path := range p.pkgs {
+		paths = append(paths, path)
+	}
+	sort.Strings(paths)
+	for _, path := range paths {
+		pk := p.pkgs[path]
+		if !strings.HasPrefix(path, modulePrefix) || !inPkgs[pk.Types.Name()] {
+			continue
+		}
+		info := pk.TypesInfo
+		for _, f := range pk.Syntax {
+			if strings.HasSuffix(p.fset.Position(f.Pos()).Filename, "_test.go") {
+				continue
+			}
+			for _, d := range f.Decls {
+				fd, ok := d.(*ast.FuncDecl)
+				if !ok || fd.Body == nil {
+					continue
+				}
+				fobj, _ := info.Defs[fd.Name].(*types.Func)
+				if fobj == nil {
+					continue
+				}
+				name := pk.Types.Name() + "." + funcKey(fobj) + "#effect:host-files-are-reached-only-through-the-confined-afero.Fs"
+				o := effectObl{Name: name, OK: true, Pos: p.fset.Position(fd.Pos()).String()}
+				ast.Inspect(fd.Body, func(n ast.Node) bool {
+					switch x := n.(type) {
+					case *ast.Ident:
+						if w := hostIO(info.Uses[x]); w != "" && o.OK {
+							o.OK = false
+							o.Detail = "refers to " + w
+							o.Pos = p.fset.Position(x.Pos()).String()
+						}
+					case *ast.CompositeLit:
+						if tv, ok := info.Types[x]; ok && strings.Contains(tv.Type.String(), "afero.OsFs") && o.OK {
+							o.OK = false
+							o.Detail = "constructs an afero.OsFs (unconfined file system)"
+							o.Pos = p.fset.Position(x.Pos()).String()
+						}
+					}
+					return true
+				})
+				obls = append(obls, o)
+			}
+		}
+	}
+	return obls
+}
